@@ -209,12 +209,38 @@ def main_loop(top, contains_call):
         else:
             cond, body = st['inner'][1], st['inner'][0]
         items = list(body.get('inner', [])) if body.get('kind') == 'CompoundStmt' else [body]
-        if (not cond or not cond.get('kind')) and items and items[0].get('kind') == 'IfStmt' and len(items[0]['inner']) == 2:
-            th = items[0]['inner'][1]
-            kinds = [x.get('kind') for x in (th.get('inner', []) if th.get('kind') == 'CompoundStmt' else [th])]
-            if kinds == ['BreakStmt']:
-                cond = norm_cond(negate(items[0]['inner'][0]))
-                items = items[1:]
+        if (not cond or not cond.get('kind')) and items:
+            # `for (;;) { [const T v = f(..);] if (!c) break; B }`: leading declarations of locals that only feed the exit test
+            # are inlined into it
+            lets = {}
+            k = 0
+            while k < len(items) and items[k].get('kind') == 'DeclStmt' and all(d.get('kind') == 'VarDecl' and 'init' in d for d in items[k].get('inner', [])):
+                for d in items[k]['inner']:
+                    init = [c for c in d.get('inner', []) if c.get('kind') not in ('FullComment',)]
+                    if init:
+                        lets[d.get('id')] = init[-1]
+                k += 1
+            if k < len(items) and items[k].get('kind') == 'IfStmt' and len(items[k]['inner']) == 2:
+                th = items[k]['inner'][1]
+                kinds = [x.get('kind') for x in (th.get('inner', []) if th.get('kind') == 'CompoundStmt' else [th])]
+                if kinds == ['BreakStmt']:
+                    c0 = items[k]['inner'][0]
+                    if lets:
+                        import copy as _copy
+                        c0 = _copy.deepcopy(c0)
+
+                        def sub(n):
+                            for idx, ch in enumerate(n.get('inner', []) or []):
+                                if isinstance(ch, dict):
+                                    if ch.get('kind') == 'DeclRefExpr' and ch.get('referencedDecl', {}).get('id') in lets:
+                                        n['inner'][idx] = {'kind': 'ParenExpr', 'type': ch.get('type', {}), 'inner': [lets[ch['referencedDecl']['id']]]}
+                                    else:
+                                        sub(ch)
+                        wrapper = {'kind': 'ParenExpr', 'inner': [c0]}
+                        sub(wrapper)
+                        c0 = wrapper['inner'][0]
+                    cond = norm_cond(negate(c0))
+                    items = items[k + 1:]
         return i, cond, items
     return None, None, None
 
